@@ -6,6 +6,7 @@ import (
 	"go/constant"
 	"go/token"
 	"go/types"
+	"os"
 	"sort"
 	"strings"
 
@@ -638,11 +639,23 @@ func (in *Interp) execLoop(loop ast.Stmt, st *State, label string) []result {
 			return in.rangeConcrete(rs, l, starts, label)
 		}
 	}
+	hasNested := false
+	ast.Inspect(body, func(n ast.Node) bool {
+		switch n.(type) {
+		case *ast.ForStmt, *ast.RangeStmt:
+			hasNested = true
+		case *ast.FuncLit:
+			return false
+		}
+		return !hasNested
+	})
 	seen := map[string]bool{}
 	work := starts
+	outerIter := st.IterNow
 	// leaving the loop normally is visible in the reference state ("exit:<ref>"), so
 	// that a rule can tell a return inside an iteration from one after the loop
 	exit := func(s *State) {
+		s.IterNow = outerIter
 		if spec != nil && len(spec.Cases) > 0 {
 			s.Ref = "exit:" + s.Ref
 		}
@@ -653,6 +666,12 @@ func (in *Interp) execLoop(loop ast.Stmt, st *State, label string) []result {
 		work = work[1:]
 		// loop head: forget iteration-local knowledge
 		s.IterNow = ""
+		if hasNested {
+			// exit/break markers left by loops nested in this one belong to the previous iteration
+			for strings.HasPrefix(s.Ref, "exit:") || strings.HasPrefix(s.Ref, "break:") {
+				s.Ref = strings.TrimPrefix(strings.TrimPrefix(s.Ref, "exit:"), "break:")
+			}
+		}
 		for _, o := range havoc {
 			s.env[o] = Sym{Name: o.Name() + tag}
 		}
@@ -669,6 +688,9 @@ func (in *Interp) execLoop(loop ast.Stmt, st *State, label string) []result {
 		}
 		seen[key] = true
 		in.fork()
+		if debugForks {
+			fmt.Fprintln(os.Stderr, "HEAD", tag, len(key), key)
+		}
 		type entered struct{ st *State }
 		var enter []*State
 		switch {
@@ -736,7 +758,12 @@ func (in *Interp) execLoop(loop ast.Stmt, st *State, label string) []result {
 							work = append(work, r.st)
 						}
 					case r.c == cBreak && (r.label == "" || r.label == label):
-						exit(r.st)
+						// leaving through break is told apart from exhausting the loop
+						if spec != nil && len(spec.Cases) > 0 {
+							r.st.Ref = "break:" + r.st.Ref
+						}
+						r.st.IterNow = outerIter
+						out = append(out, result{st: r.st, c: cNext})
 					default:
 						out = append(out, r)
 					}
